@@ -267,3 +267,20 @@ V("c16-elevation-kind-wrong", "C16", "violation", "C16.R3", edits=[(ME, "       
 V("c16-flags-sorted", "C16", "violation", "C16.R3", edits=[(ME, "        self._angular_values = [meas.is_angular for meas in self._measurements]", "        self._angular_values = sorted(meas.is_angular for meas in self._measurements)")])
 V("c16-true-y-reversed", "C16", "violation", "C16.R4", edits=[(UK, "concatenate([ob.measurement_states for ob in observations], axis=0)", "concatenate([ob.measurement_states for ob in reversed(observations)], axis=0)")])
 V("c16-n-use-vector-residual", "C16", "pass", edits=[(UK, "self.innovation = residuals(self.true_y, self.mean_pred_y, self.is_angular)", "self.innovation = vecResiduals(self.true_y, self.mean_pred_y, self.is_angular)")])
+
+# ------------------------------------------------------------------------------------ C17
+MDF = "estimation/maneuver_detection.py"
+STF = "physics/statistics.py"
+SF = "estimation/sequential_filter.py"
+V("c17-not-dropped", "C17", "violation", "C17.R1", edits=[(MDF, "        dof = sum(self.dim_list)\n        self.metric = sum(self.nis_list)\n        return not test(self.metric, self.threshold, dof)", "        dof = sum(self.dim_list)\n        self.metric = sum(self.nis_list)\n        return test(self.metric, self.threshold, dof)")])
+V("c17-tests-other-value", "C17", "violation", "C17.R1", edits=[(MDF, "        self.metric = self.prior_nis * (1 + self.delta)\n        return not test(self.metric, self.threshold, dof)", "        self.metric = self.prior_nis * (1 + self.delta)\n        return not test(self.prior_nis, self.threshold, dof)")])
+V("c17-dim-append-dropped", "C17", "violation", "C17.R2", edits=[(MDF, "        self.dim_list.append(residual.shape[0])\n", "")])
+V("c17-window-unbounded", "C17", "violation", "C17.R2", edits=[(MDF, "        self.dim_list = deque(maxlen=window_size)", "        self.dim_list = deque()")])
+V("c17-fading-scale", "C17", "violation", "C17.R2", edits=[(MDF, "        self.metric = self.prior_nis * (1 + self.delta)", "        self.metric = self.prior_nis * (1 - self.delta)")])
+V("c17-fading-recursion", "C17", "violation", "C17.R2", edits=[(MDF, "self.prior_nis = self.delta * self.prior_nis + chiSquareQuadraticForm(residual, innov_cvr)", "self.prior_nis = self.delta * (self.prior_nis + chiSquareQuadraticForm(residual, innov_cvr))")])
+V("c17-sliding-dof-current-only", "C17", "violation", "C17.R2", edits=[(MDF, "        dof = sum(self.dim_list)", "        dof = residual.shape[0]")])
+V("c17-test-inclusive", "C17", "violation", "C17.R3", edits=[(STF, "    upper_bound = chi2.isf(alpha, dof * runs) / runs\n    return metric < upper_bound", "    upper_bound = chi2.isf(alpha, dof * runs) / runs\n    return metric <= upper_bound")])
+V("c17-lower-tail", "C17", "violation", "C17.R3", edits=[(STF, "    upper_bound = chi2.isf(alpha, dof * runs) / runs\n    return metric < upper_bound", "    upper_bound = chi2.ppf(alpha, dof * runs) / runs\n    return metric < upper_bound")])
+V("c17-flag-unconditional", "C17", "violation", "C17.R4", edits=[(SF, "        if not self.maneuver_detected:\n            return\n\n        self.flags |= FilterFlag.MANEUVER_DETECTION", "        self.flags |= FilterFlag.MANEUVER_DETECTION\n        if not self.maneuver_detected:\n            return\n")])
+V("c17-detector-gets-cross-cvr", "C17", "violation", "C17.R4", edits=[(SF, "self.maneuver_detection(self.innovation, self.innov_cvr)", "self.maneuver_detection(self.innovation, self.cross_cvr)")])
+V("c17-n-swapped-sides", "C17", "pass", edits=[(STF, "    return metric < upper_bound", "    return upper_bound > metric")])
